@@ -10,7 +10,8 @@ CASES = {'quick': 8000, 'thorough': 100000}
 GATES = {
     'quick': {'evaluations': 6000, 'created_meta_items': 1800, 'created_comments': 1200, 'raw_items_inserted': 600, 'from_value_meta': 400,
               'entry_classes_seen': 13, 'layout:none': 300, 'layout:uniform': 300, 'layout:tabs': 100, 'layout:with-comments': 200,
-              'layout:non-uniform': 100},
+              'layout:non-uniform': 100, 'meta_view_read_before_indent_by': 1500, 'reconfigured_between_edits': 1000,
+              'meta_cleared_before_insert': 200},
     'thorough': {'evaluations': 120000, 'entry_classes_seen': 13},
 }
 RULE = ('case = one entry of one of the 12 entry classes (or a posting inside a transaction) parsed from text with a chosen meta layout '
@@ -80,6 +81,10 @@ def run_case(col, r, idx):
     owner = d.postings[0] if cname == 'Posting' else d
     col.count('cls:' + cname)
     col.count('layout:' + layout)
+    if r.random() < 0.5:
+        # a user who inspects the meta first (this creates the cached mapping view) and configures indent_by afterwards
+        len(owner.meta)
+        col.count('meta_view_read_before_indent_by')
     iby = r.choice(INDENT_BYS)
     if iby is not None:
         owner.indent_by = iby
@@ -88,12 +93,24 @@ def run_case(col, r, idx):
     path = '$.directives[0]' + ('.postings[0]' if cname == 'Posting' else '')
     for step in range(r.randint(1, 3)):
         route = r.choice(['map-new', 'map-new', 'setdefault', 'update', 'raw-append', 'raw-insert', 'comment-setter', 'comment-setter'])
+        if r.random() < 0.25:
+            # reconfigure between edits: the rule speaks of the parent's indent_by / indentation at the time of the insertion
+            owner.indent_by = eff_by = r.choice([' ', '  ', '\t', '    ', '      '])
+            if cname == 'Posting' and r.random() < 0.5:
+                owner.indent = r.choice(['  ', '   ', '\t', '     '])
+            col.count('reconfigured_between_edits')
         before = indents_snapshot(store)
         sib = [it.indent for it in owner.raw_meta]
         parent_indent = owner.indent if cname == 'Posting' else ''
         expected = set(sib) if sib else {parent_indent + eff_by}
         wit = {'text': text, 'class': cname, 'layout': layout, 'indent_by': eff_by, 'route': route, 'now': common.pr(f)}
         key = f'n{step}'
+        if sib and r.random() < 0.15:
+            owner.meta.clear()
+            sib = []
+            expected = {parent_indent + eff_by}
+            before = indents_snapshot(store)
+            col.count('meta_cleared_before_insert')
         try:
             if route in ('map-new', 'setdefault', 'update'):
                 v = meta_value(r)
